@@ -2,7 +2,7 @@
 
 Besides the generic steps (translator + theorems + default harness ⇄ Lean driver), `extra_checks` builds harness/h_cfg.c from
 the current tree under the configuration × optimisation matrix and compares every transcript byte for byte."""
-import os, re, time
+import os, re, time, shutil
 from concurrent.futures import ThreadPoolExecutor
 from ..runner import Spec, Case
 from .. import core
@@ -17,26 +17,57 @@ CONFIGS = {
     'nocache-ngc': ['CELLO_CACHE=0', 'CELLO_NGC'],
     'ndebug-nocache-ngc': ['CELLO_NDEBUG', 'CELLO_CACHE=0', 'CELLO_NGC'],
 }
-# (optimisation level, sanitizers)
-QUICK = [(c, '-O0', True) for c in ('default', 'ndebug', 'nocache', 'ngc')] + \
-        [(c, '-O2', False) for c in ('default', 'ndebug', 'nocache', 'ngc')] + [('ndebug-nocache-ngc', '-O2', True)]
-THOROUGH = [(c, o, s) for c in CONFIGS for (o, s) in (('-O0', True), ('-O2', True), ('-O2', False), ('-O3', False))]
+# job = (configuration, optimisation level, sanitizers, compiler)
+QUICK = [(c, '-O0', True, 'clang') for c in ('default', 'ndebug', 'nocache', 'ngc')] + \
+        [(c, '-O2', False, 'clang') for c in ('default', 'ndebug', 'nocache', 'ngc')] + [('ndebug-nocache-ngc', '-O2', True, 'clang')]
+THOROUGH = [(c, o, s, 'clang') for c in CONFIGS for (o, s) in (('-O0', True), ('-O2', True), ('-O2', False), ('-O3', False))] + \
+           [(c, o, False, 'gcc') for c in CONFIGS for o in ('-O2', '-O3')]     # a second compiler, unsanitized (gcc has no __has_feature: ASan + stack scan do not mix)
+GCC = os.environ.get('VERIF_GCC', 'gcc')
 
 MAXSLOT = 48
 LCM = 5 * 11 * 23 * 53          # keys k*LCM collide in every small Table size
 WORDS = ['', 'a', 'b', 'ab', 'ba', 'abc', 'x', 'y', 'zz', 'K0', 'K1', 'key', 'Key', 'val', 'Q_1', 'hello', 'world', '0', '00', '9z', 'AaAa', 'BBBB']
 
-def tag_of(cfg, opt, san): return f'{cfg}-{opt[1:]}{"s" if san else ""}'
+def opt_name(opt, san, cc='clang'): return ('gcc' if cc == 'gcc' else '') + opt[1:] + ('s' if san else '')
+def tag_of(cfg, opt, san, cc='clang'): return f'{cfg}-{opt_name(opt, san, cc)}'
 
 def build(job):
-    cfg, opt, san = job
-    t = tag_of(cfg, opt, san)
-    ok, exe, lg = core.build_harness('h_cfg', defines=CONFIGS[cfg] + [f'VCFG="{cfg}"', f'VOPT="{opt[1:]}{"s" if san else ""}"'],
-                                     opt=opt, sanitize=san, tag='-' + t)
+    """core.build_harness reads the module global core.CC: gcc jobs are built in their own phase (see build_all)"""
+    cfg, opt, san, cc = job
+    ok, exe, lg = core.build_harness('h_cfg', defines=CONFIGS[cfg] + [f'VCFG="{cfg}"', f'VOPT="{opt_name(opt, san, cc)}"'],
+                                     opt=opt, sanitize=san, tag='-' + tag_of(*job))
     return job, ok, exe, lg
+
+def build_all(jobs):
+    built = []
+    nj = int(os.environ.get('VERIF_JOBS', '16'))
+    with ThreadPoolExecutor(max_workers=nj) as ex:
+        built += list(ex.map(build, [j for j in jobs if j[3] != 'gcc']))
+    gj = [j for j in jobs if j[3] == 'gcc']
+    if gj and shutil.which(GCC):
+        saved = core.CC
+        try:
+            core.CC = GCC
+            with ThreadPoolExecutor(max_workers=nj) as ex:
+                built += list(ex.map(build, gj))
+        finally:
+            core.CC = saved
+    return built
 
 def transcript(out):
     return [l for l in out.split('\n') if l[:2] in ('O ', 'T ')]
+
+def crash_summary(rc, out, err):
+    """one line saying how a harness run died: the sanitizer's headline rather than the tail of its report"""
+    txt = (err or '') + '\n' + (out or '')
+    for pat in (r'ERROR: AddressSanitizer: [^\n]*', r'[^\n]*runtime error: [^\n]*', r'SUMMARY: [^\n]*', r'ERROR: [^\n]*'):
+        m = re.search(pat, txt)
+        if m:
+            s = m.group(0).strip()
+            m2 = re.search(r'SUMMARY: [^\n]*', txt)
+            return f'exit status {rc}: {s[:300]}' + (f' | {m2.group(0)[:200]}' if m2 and m2.group(0) not in s else '')
+    last = [l for l in txt.split('\n') if l.strip()][-3:]
+    return f'exit status {rc}' + (' (timeout)' if rc == -9 else '') + ': ' + ' / '.join(last)[:400]
 
 # ------------------------------------------------------------------------------------------------ workload generator
 class Gen:
@@ -338,7 +369,7 @@ class C18(Spec):
         """None or description of the first difference between the two builds on this op file"""
         rc0, out0, err0 = self._run(ref_exe, lines, name + 'r')
         rc1, out1, err1 = self._run(exe, lines, name + 'x')
-        if rc1 != 0: return f'exit status {rc1}: {(err1 or out1)[-600:]}'
+        if rc1 != 0: return crash_summary(rc1, out1, err1)
         xs = core.lines_with('X ', out1)
         if xs: return xs[0]
         a, b = transcript(out0), transcript(out1)
@@ -351,8 +382,7 @@ class C18(Spec):
         if not hexe: return []
         t0 = time.time()
         jobs = self.matrix(tier)
-        with ThreadPoolExecutor(max_workers=int(os.environ.get('VERIF_JOBS', '16'))) as ex:
-            built = list(ex.map(build, jobs))
+        built = build_all(jobs)
         stats['matrix_builds'] = len(built); stats['matrix_build_s'] = round(time.time() - t0, 1)
         failures = []
         exes = []
@@ -376,7 +406,7 @@ class C18(Spec):
             tg = tag_of(*job)
             ref = self._ref.get(c.name)
             why = None
-            if rc != 0: why = f'exit status {rc}: {(err or out)[-800:]}'
+            if rc != 0: why = crash_summary(rc, out, err)
             else:
                 xs = core.lines_with('X ', out)
                 if xs: why = xs[0]
@@ -395,8 +425,8 @@ class C18(Spec):
                     if why2: why = why2
                 except Exception as e:
                     why += f' (shrink failed: {e})'
-                failures.append(dict(kind='transcript', case=Case(c.name + '-' + tg, lines), sig=f'c18-{job[0]}-{job[1][1:]}{"s" if job[2] else ""}',
-                                     detail=f'build {tg} (defines {CONFIGS[job[0]]}, {job[1]}, sanitizers {"on" if job[2] else "off"}) disagrees with the default build: {why}'))
+                failures.append(dict(kind='transcript', case=Case(c.name + '-' + tg, lines), sig=f'c18-{job[0]}-{opt_name(*job[1:])}',
+                                     detail=f'build {tg} ({job[3]}, defines {CONFIGS[job[0]]}, {job[1]}, sanitizers {"on" if job[2] else "off"}) disagrees with the default build: {why}'))
         stats['matrix_transcript_lines_compared'] = nlines
         stats['matrix'] = [tag_of(*j) for j in jobs]
         return failures
@@ -407,7 +437,7 @@ class C18(Spec):
         tier = os.environ.get('VERIF_TIER', 'quick')
         ok, hexe, _ = core.build_harness(self.harness)
         if not ok: return d
-        for job, ok, exe, lg in map(build, self.matrix('thorough' if tier == 'thorough' else 'quick')):
+        for job, ok, exe, lg in build_all(self.matrix('thorough' if tier == 'thorough' else 'quick')):
             if not ok: return (-1, '<build>', f'{tag_of(*job)} does not compile')
             why = self._differs(hexe, exe, case.lines, 'replay' + tag_of(*job))
             if why: return (-1, f'build {tag_of(*job)}', why)
